@@ -355,7 +355,7 @@ def run(ctx):
     check_none_vs_zero(ctx, 3)
     check_refusals(ctx, 5)
     c05.check_scaling(_R(ctx, {1: 6, 2: 6, 3: 6, 4: 6}), 6)
-    c13.check_flush(ctx, 7)
+    c13.check_flush(ctx, 7, only=("batch_by_pipeline",))
 
 
 class _R:
